@@ -197,6 +197,7 @@ impl Scenario for PureInitiator {
                 start_delay_ms: tape::choose(8) * 100,
                 script: vec![Step(if unreliable { Step::UNRELIABLE } else { 0 })],
                 final_ack: false,
+                group: false,
             });
             id += 1;
         }
@@ -209,6 +210,7 @@ impl Scenario for PureInitiator {
                 start_delay_ms: if k == 0 { 4_000 + tape::choose(10) * 100 } else { 200 },
                 script: vec![Step(0), Step(Step::BY_RESPONDER)],
                 final_ack: true,
+                group: false,
             });
             id += 1;
         }
